@@ -35,7 +35,7 @@ def expected_cp_rank(shape, rank):
     if rank == "same":
         rank = 1.0
     if isinstance(rank, float):
-        return int(np.round(np.prod(shape) * rank / np.sum(shape)))
+        return max(int(np.round(np.prod(shape) * rank / np.sum(shape))), 1)  # a decomposition has at least one component
     return rank
 
 
@@ -259,6 +259,8 @@ class C08(Check):
             if must_raise:
                 ctx.nontriv()
                 ctx.outcome(f"{entry}:rejected-invalid-rank")
+            elif isinstance(rank, (float, str)) and not isinstance(e, np.linalg.LinAlgError):
+                ctx.violation(f"{tag}/raises-on-fractional-rank-spec/{cls}", f"{case}: {cls}: {e}")
             else:
                 ctx.count(f"guarded_out:raises:{entry}:{cls}:{str(e)[:40]}")
                 ctx.outcome(f"{entry}:raised")
